@@ -337,6 +337,33 @@ func init() {
 				}
 			}
 		}
+		// valid bodies generated from the specification's layouts (MC_Layouts cases), per version / dialect:
+		// the captures and the simulator only know the 2013 / JS forms
+		extra := map[string][][]byte{}
+		if len(a) > 1 {
+			if err := readND(a[1], func(i int, raw []byte) error {
+				var c lCase
+				if err := jsonUnmarshal(raw, &c); err != nil {
+					return err
+				}
+				base, ver, dia := c.Type, consts.JT808Protocol2013, consts.ActiveSafetyJS
+				if i := strings.LastIndex(c.Type, "_"); i > 0 && len(c.Type) == i+3 {
+					base = c.Type[:i]
+					if c.Type[i+1] == 'v' {
+						ver = consts.ProtocolVersionType(c.Type[i+2] - '0')
+					} else {
+						dia = consts.ActiveSafetyType(c.Type[i+2] - '0')
+					}
+				}
+				k := fmt.Sprintf("%s/v%d/d%d", base, ver, dia)
+				if n := len(extra[k]); n < 2 || (n < 4 && len(c.Body) > len(extra[k][n-1])) { // the base value and some longer ones
+					extra[k] = append(extra[k], c.Body)
+				}
+				return nil
+			}); err != nil {
+				die(err)
+			}
+		}
 		r := newRand(303)
 		for _, tg := range targets() {
 			var bodies [][]byte
@@ -399,11 +426,16 @@ func init() {
 			}
 			for _, v := range tg.vers {
 				for _, d := range tg.dialects {
-					for _, b := range uniq {
+					have := map[string]bool{}
+					for _, b := range append(append([][]byte{}, uniq...), extra[fmt.Sprintf("%s/v%d/d%d", tg.name, v, d)]...) {
 						// keep only seeds the decoder accepts (or the empty seed)
 						if o := runDecode(tg.mk(v, d), exact(b)); o.err && len(b) > 0 && tg.id != 0 {
 							continue
 						}
+						if have[string(b)] {
+							continue
+						}
+						have[string(b)] = true
 						out.put(c03Case{T: tg.name, Ver: int(v), Dialect: int(d), Body: b, Prefix: B{}})
 					}
 				}
